@@ -1,4 +1,5 @@
 import Gonuts.Lemmas.Token
+import Gonuts.Model.TokenWire
 /-!
   # C14 — tokens survive serialisation exactly; decoding arbitrary text never crashes
 
@@ -224,6 +225,36 @@ example (cod : Codec) := v4_roundtrip cod ["00cd", "00ab"] psEx "https://mint" t
 theorem v4_field_survives_iff (dleq : Bool) (p : Proof) :
     (normV4 dleq p).id = p.id ∧ (normV4 dleq p).c = p.c ↔ lowerHex p.id = p.id ∧ lowerHex p.c = p.c := by
   simp [normV4]
+
+/-- The round trips with the *modelled* marshallers (`Model.TokenWire`: the byte strings `json.Marshal` /
+    `cbor.Marshal` really emit, compared byte for byte by stream `token`): only the two `Unmarshal` functions stay
+    abstract, and the hypothesis is "`Unmarshal` reads back what `Marshal` wrote for this token". -/
+theorem roundtrip_wire (cod : Codec) (ps : List Proof) (mint : String) (dleq : Bool) :
+    (∃ t, newV3 ps mint 0 dleq = .ok t ∧
+      (cod.decJson (Wire.jsonTokenV3 t) = some t →
+        decodeToken (Wire.withRealEncoders cod) (Wire.serialize (.v3 t)) = .ok (.v3 t) ∧
+        (Token.v3 t).proofs = ps.map (Proof.keep dleq))) ∧
+    (∀ ord, OrderOf ps ord → (∀ p ∈ ps, LowerHexProof dleq p) →
+      ∃ t, newV4 ord ps mint 0 dleq = .ok t ∧
+        (cod.decCbor (Wire.cborTokenV4 t) = some t →
+          decodeToken (Wire.withRealEncoders cod) (Wire.serialize (.v4 t)) = .ok (.v4 t) ∧
+          ((Token.v4 t).proofs).Perm (ps.map (Proof.keep dleq)))) := by
+  constructor
+  · obtain ⟨t, ht, h⟩ := v3_roundtrip (Wire.withRealEncoders cod) ps mint dleq
+    refine ⟨t, ht, fun hdec => ?_⟩
+    obtain ⟨s, hs, hd, hp, _⟩ := h (Wire.jsonTokenV3 t) rfl hdec
+    have : s = Wire.serialize (.v3 t) := by
+      simp only [Token.serialize, serializeV3, Wire.withRealEncoders] at hs
+      cases hs; rfl
+    exact ⟨this ▸ hd, hp⟩
+  · intro ord hord hlow
+    obtain ⟨t, ht, h⟩ := v4_roundtrip (Wire.withRealEncoders cod) ord ps mint dleq hord hlow
+    refine ⟨t, ht, fun hdec => ?_⟩
+    obtain ⟨s, hs, hd, _, hp, _⟩ := h (Wire.cborTokenV4 t) rfl hdec
+    have : s = Wire.serialize (.v4 t) := by
+      simp only [Token.serialize, serializeV4, Wire.withRealEncoders] at hs
+      cases hs; rfl
+    exact ⟨this ▸ hd, hp⟩
 
 /-! ## amounts -/
 
